@@ -122,7 +122,20 @@ func FuzzC08(f *testing.F) {
 		}
 		d := &fuzzData{b: data}
 		c := C08Case{Codec: fuzzCodec(d), Cuts: fuzzCuts(d)}
-		c.End = []string{"eof", "err"}[d.intn(2)]
+		c.End = []string{"eof", "err", "eofdata"}[d.intn(3)]
+		flags := d.intn(16)
+		c.Zero = []int{0, 0, 2, 3}[flags&3]
+		if flags&4 != 0 {
+			c.Packet, c.Zero = true, 0
+			if len(c.Cuts) == 0 {
+				c.Cuts = []int{7}
+			}
+		}
+		if flags&8 != 0 && flags&4 == 0 {
+			// the "maximum received length" decoder
+			c.Codec = wire.Codec{Kind: "varlen", Max: []int{1, 7, 16, 100, 1000, 1024, 1025}[d.intn(7)]}
+			c.Zero = 0
+		}
 		c.Stream = append([]byte{}, d.rest()...)
 		fuzzFail(t, "C08", c, runC08(c))
 	})
@@ -138,6 +151,12 @@ func FuzzC04(f *testing.F) {
 		}
 		d := &fuzzData{b: data}
 		c := C04Case{Codec: fuzzCodec(d), Cuts: fuzzCuts(d), End: "eof", UseEncoder: d.intn(4) != 0}
+		flags := d.intn(32)
+		if flags&1 != 0 {
+			c.End = "eofdata"
+		}
+		c.Arena, c.Hold = flags&2 != 0, flags&4 != 0
+		c.Zero = []int{0, 0, 2, 3}[(flags>>3)&3]
 		sizes := []int{0, 1, 2, 3, 7, 15, 16, 17, 100, 254, 255, 256, 257, 300, 1023, 1024, 1025, 65535, 65536}
 		for n := 1 + d.intn(5); n > 0; n-- {
 			fr := C04Frame{Len: sizes[d.intn(len(sizes))], Seed: d.intn(200), Carrier: c04Carriers[d.intn(len(c04Carriers))]}
